@@ -114,6 +114,16 @@ def gen_script(rnd, is_async, allow_big):
             ops.append("b%d" % rnd.choice([0, 1, 64, 4096]))
         elif r < 0.40 and is_async:
             ops.append("F")
+    if rnd.random() < 0.15:
+        # the application announces the length itself (response().content_length(n)): the body must then go out as it is
+        headers.append((b"Content-Length", b"%d" % len(expected)))
+        k = 0
+        while k < len(ops) and ops[k][0] in "bma":
+            k += 1
+        ops.insert(k, "h%s.%s" % (b"Content-Length".hex(), (b"%d" % len(expected)).hex()))
+    if is_async and rnd.random() < 0.15:
+        # the application finalizes the response itself, flushes asynchronously and then completes it: still one end-of-response marker
+        ops += ["Z", "F"]
     return ops, bytes(expected), headers, cookies, mode
 
 
@@ -256,8 +266,8 @@ def worker(args):
                 key = b"page-%d-%d" % (windex, ci)
                 trig = b"trig-%d-%d" % (windex, ci)
                 k = 0
-                while k < len(ops) and ops[k][0] in "bma":
-                    k += 1
+                while k < len(ops) and (ops[k][0] in "bma" or ops[k].startswith("h" + b"Content-Length".hex())):
+                    k += 1          # what decides about compression (mode, an announced length) is settled before the page is looked up
                 ops = ops[:k] + ["K" + key.hex(), "T" + trig.hex()] + ops[k:]
             script = ",".join(ops)
             tok = b"W%d-%d" % (windex, ci)
